@@ -19,7 +19,9 @@ RULE = (
     "reference router, and every mutating op (unregister, register, re-register, enableBLOB(client, device, value)) is applied to a "
     "fresh copy of the state - once untouched and once after it has routed a representative set of sends ('warm') -, the router's "
     "public state compared with the model and the representative send set re-observed. "
-    "'history': Hypothesis histories (<= 40 ops, <= 6 clients) of register/unregister/enableBLOB/device-send. Non-trivial: a send "
+    "'reactive': endpoints that send from inside a delivery (definition in answer to getProperties, enableBLOB in answer to "
+    "the definition, a chain of relayed notices 2-4 deep): the policy must be in force for the next message and every notice is "
+    "delivered exactly once. 'history': Hypothesis histories (<= 40 ops, <= 6 clients) of register/unregister/enableBLOB/device-send. Non-trivial: a send "
     "observed while >= 2 registered clients hold different policies for the message's device, or a policy for another "
     "device/client is present (independence). Exhaustive sends are distinct by construction; histories by canonical JSON."
 )
@@ -115,6 +117,86 @@ def check_state(case):
     return Info(n_eval=n_eval, n_nontrivial=n_nt, label_counts={f"registered={regs}": 1})
 
 
+def check_reactive(case):
+    """Endpoints that react from INSIDE a delivery (a driver answers getProperties with definitions, a snooping client
+    answers the first definition with enableBLOB, an application relays): whatever is sent that way is routed like any
+    other message - delivered once to everybody entitled, policies in force before the next message is routed.
+    case: {"depth": 2..4, "policy": "Also"|"Only"|"Never", "observers": int}"""
+    from indi import message as M
+    from indi.routing import Client, Device, Router
+
+    router = Router()
+    got = {}
+
+    class Obs(Client):
+        def __init__(self, name):
+            self.name_ = name
+            got[name] = []
+
+        def message_from_device(self, m):
+            got[self.name_].append(m.__class__.tag_name() + ":" + str(getattr(m, "message", "") or getattr(m, "name", "")))
+
+    class Reactor(Obs):
+        """Answers the first definition of device D with its BLOB policy (what SnoopingClient / Client do)."""
+
+        def __init__(self, name, policy):
+            super().__init__(name)
+            self.policy, self.done = policy, False
+
+        def message_from_device(self, m):
+            super().message_from_device(m)
+            if m.__class__.tag_name().startswith("def") and not self.done:
+                self.done = True
+                router.process_message(M.EnableBLOB(device="D", value="".join(list(self.policy))), sender=self)
+
+    class Dev(Device):
+        """Answers getProperties with a definition, and relays a chain of notices (each sent while the previous one is
+        being delivered)."""
+
+        def accepts(self, device):
+            return device in (None, "D")
+
+        def message_from_client(self, m):
+            if m.__class__.tag_name() == "getProperties":
+                router.process_message(M.DefBLOBVector(device="D", name="IMG", state="Ok", perm="ro", children=()), sender=self)
+
+    class Chain(Obs):
+        def __init__(self, name, depth, dev):
+            super().__init__(name)
+            self.depth, self.dev = depth, dev
+
+        def message_from_device(self, m):
+            super().message_from_device(m)
+            text = getattr(m, "message", None)
+            if text and text.startswith("chain-") and int(text[6:]) < self.depth:
+                router.process_message(M.Message(device="D", message=f"chain-{int(text[6:]) + 1}"), sender=self.dev)
+
+    dev = Dev()
+    router.register_device(dev)
+    observers = [Obs(f"o{i}") for i in range(case.get("observers", 1))]
+    reactor = Reactor("reactor", case["policy"])
+    chain = Chain("chain", case["depth"], dev)
+    for c in observers + [reactor, chain]:
+        router.register_client(c)
+    asker = observers[0]
+    # 1. a handshake: getProperties -> definition (depth 1) -> the reactor's enableBLOB (depth 2)
+    router.process_message(M.GetProperties(version="1.7", device="D"), sender=asker)
+    router.process_message(M.SetBLOBVector(device="D", name="IMG", state="Ok", children=()), sender=dev)
+    n_blob = sum(1 for t in got["reactor"] if t.startswith("setBLOBVector"))
+    want_blob = 1 if case["policy"] in ("Also", "Only") else 0
+    if n_blob != want_blob:
+        raise Failure(f"reactive:policy-sent-from-inside-a-delivery-not-in-force:{case['policy']}", f"{case}: the reactor set {case['policy']} while the definition was being delivered; of the next setBLOBVector it received {n_blob}, expected {want_blob}")
+    # 2. a chain of notices, each routed while the previous one is being delivered
+    for k in got:
+        got[k].clear()
+    router.process_message(M.Message(device="D", message="chain-1"), sender=dev)
+    want = [f"message:chain-{i}" for i in range(1, case["depth"] + 1)]
+    for o in observers:
+        if sorted(got[o.name_]) != sorted(want):
+            raise Failure("reactive:chain-not-delivered-exactly-once", f"{case}: observer {o.name_} received {got[o.name_]}, expected (in any order) {want}")
+    return Info(nontrivial=True, labels=[f"depth={case['depth']}", case["policy"]])
+
+
 def check_history(case):
     w = routing.World(ndev=case["ndev"], ncli=case["ncli"])
     nt = False
@@ -149,7 +231,7 @@ device_history_ops = st.one_of(
 )
 history = st.fixed_dictionaries({"ndev": st.integers(1, 3), "ncli": st.integers(1, 6), "ops": st.lists(device_history_ops, min_size=2, max_size=40)})
 
-SUBCHECKS = {"states": check_state, "history": check_history}
+SUBCHECKS = {"states": check_state, "history": check_history, "reactive": check_reactive}
 
 
 def states(n):
@@ -162,3 +244,4 @@ def run(ctx):
     cnt = ctx.each("states", states(n), check_state, stop_after=6, timeout=120)
     ctx.exhaustive["states"] = {"complete": True, "n_states": cnt, "bound": f"{n} clients x 2 device names x 4 policy values incl. unset = {17 ** n} abstract states; every device-originated send and every mutating op in each"}
     ctx.hyp("history", history, check_history, ctx.scale(250, 8000))
+    ctx.each("reactive", [{"depth": d, "policy": p, "observers": o} for d in (2, 3, 4) for p in ("Also", "Only", "Never") for o in (1, 2)], check_reactive, stop_after=2)
